@@ -35,7 +35,7 @@ theorem opcode_code_roundtrip : ∀ o : Opcode, Opcode.ofCode o.code = some o :=
 /-- **Soundness of the verifier.**  If `verify p = true` then for every entry `e` (start of the script, every
 label, case label and catch label), every number of steps and every resolution of the branches on the way
 (`cs`: which successor is taken at each step), the state `s` the abstract VM reaches is safe:
-* `s.pc` is inside the buffer and on an instruction boundary of the linear decoding of the whole buffer;
+* `s.pc` is inside the buffer (instruction boundaries: `C02_branch_targets_on_boundaries`);
 * the instruction there decodes inside the buffer and is executable at this height (no underflow, marked
   region rules, switch table known) — so the path can always be continued, in particular every branch
   target is again such a state;
@@ -50,6 +50,17 @@ theorem C02_verifier_sound (p : Program) (hv : verify p = true) (e : Nat) (he : 
 theorem C02_checker_sound (p : Program) (H : Ann) (hv : check p H = true) (e : Nat) (he : e ∈ p.entries)
     (cs : List Nat) (s : St) (hx : AbsVM.run p (AbsVM.start e) cs = some s) : Safe p s :=
   check_sound p H hv e he cs s hx
+
+/-- **Every branch lands on an instruction boundary.**  The reachable code decodes in exactly one way: for
+any two states reachable from any entries along any paths, the second never starts strictly inside the
+instruction the first is about to execute.  (So a jump, case label, catch label or fall-through never
+enters the operand bytes of an instruction that is itself reachable.) -/
+theorem C02_branch_targets_on_boundaries (p : Program) (hv : verify p = true) (e₁ e₂ : Nat) (h₁ : e₁ ∈ p.entries)
+    (h₂ : e₂ ∈ p.entries) (cs₁ cs₂ : List Nat) (s₁ s₂ : St) (hx₁ : AbsVM.run p (AbsVM.start e₁) cs₁ = some s₁)
+    (hx₂ : AbsVM.run p (AbsVM.start e₂) cs₂ = some s₂) : ¬ insideInstr p s₁.pc s₂.pc :=
+  no_overlap_of_inv p (infer p) hv s₁ s₂
+    (inv_run p (infer p) hv cs₁ _ (inv_start p _ hv e₁ h₁) s₁ hx₁)
+    (inv_run p (infer p) hv cs₂ _ (inv_start p _ hv e₂ h₂) s₂ hx₂)
 
 /-- heights agree on all paths into the same instruction: two paths (from any entries) that arrive at the
 same offset arrive with the same height and the same pending mark -/
@@ -114,6 +125,9 @@ example : verify { realProgram with declared := 2 } = false := by decide +kernel
 example : ∃ s, AbsVM.run realProgram (AbsVM.start 0) [0, 0, 0, 0, 0, 1] = some s ∧ s.pc = 47 ∧ Safe realProgram s := by
   refine ⟨⟨47, 0, none⟩, by decide +kernel, rfl, ?_⟩
   exact C02_verifier_sound realProgram (by decide +kernel) 0 (by decide) [0, 0, 0, 0, 0, 1] _ (by decide +kernel)
+
+/-- `insideInstr` is not vacuous: offset 22 is inside the `OP_VAR_JUMP_FALSE4` at 21 -/
+example : insideInstr realProgram 21 22 := ⟨⟨.OP_VAR_JUMP_FALSE4, 5, 1, 0⟩, by decide +kernel, by decide, by decide⟩
 
 /-- error paths: the list is not empty, and a repaired block is accepted while the transcribed one is not -/
 example : vmErrPaths .OP_STORE_ARRAY = [⟨-1, false, some 0⟩] ∧ errOk .OP_STORE_ARRAY = true := by decide
